@@ -74,21 +74,21 @@ def chunkToks : List Bytes → List Tok
 def blockToks (block : Option Bytes) (cuts : List Nat) : List Tok :=
   match block with
   | none => []
-  | some bs =>
-    match splitSizes bs cuts with
-    | [] => []
-    | c :: cs => .b c :: chunkToks cs
+  | some bs => .b ((splitSizes bs cuts).headD []) :: chunkToks (splitSizes bs cuts).tail
 
 /-- the character segments of an entry under a layout: first segment, then (segment, packing) per break -/
 def segments (e : Entry) (ly : EntryLayout) : List (List Nat) := splitSizes e.units (ly.cuts.map (·.1))
 
+/-- the characters: first segment right after the header, then one CONTINUE record per further segment -/
+def charToks (e : Entry) (ly : EntryLayout) : List Tok :=
+  .b (encUnits ly.wide0 ((segments e ly).headD []))
+    :: contToks ((segments e ly).tail.zip (ly.cuts.map (·.2)))
+
+def entryBody (e : Entry) (ly : EntryLayout) : List Tok :=
+  .b (header e ly.wide0) :: (charToks e ly ++ (blockToks e.runs ly.runCuts ++ blockToks e.ext ly.extCuts))
+
 def entryToks (e : Entry) (ly : EntryLayout) : List Tok :=
-  (if ly.cutBefore then [.cut] else [])
-    ++ .b (header e ly.wide0)
-    :: (match segments e ly with
-        | [] => []
-        | s0 :: ss => .b (encUnits ly.wide0 s0) :: contToks (ss.zip (ly.cuts.map (·.2))))
-    ++ blockToks e.runs ly.runCuts ++ blockToks e.ext ly.extCuts
+  if ly.cutBefore then .cut :: entryBody e ly else entryBody e ly
 
 def tableToks : List Entry → List EntryLayout → List Tok
   | [], _ => []
